@@ -16,7 +16,9 @@ RULE = ("each run = one seeded schedule of 2-3 client threads (1-2 ops each from
         "the worker tasks they spawn, interleaved at lock acquire/release, submit, task start/finish, future waits and "
         "every file-system call (optionally also at drawn source lines of file_cache.py); a run is non-trivial when at "
         "least one context switch happened while an operation was in flight; distinct = distinct digest of the "
-        "(actor,event) sequence plus operation results")
+        "(actor,event) sequence plus operation results.  Drawn per run: names with a directory part, durable updates (use_fsync), "
+        "cache limit (fits one / two / all), warm entries; df configuration: update / get / unload on one table that may exist "
+        "before the run; iofault configuration: one transient read error")
 ASSUMPTIONS = [
     "pre-emption only at intercepted points (lock, submit, future wait, FS call) and, in the 'lines' configuration, at line events of klongpy/db/file_cache.py",
     "SimFS models a POSIX namespace with atomic per-call semantics",
@@ -29,7 +31,7 @@ REAL_STUB = {
              "time.time_ns -> virtual counter", "OS thread scheduler -> baton passing World"],
 }
 EXPECTED_PROBES = ["probe_second_writer_saw_writing", "probe_get_joined_inflight_load", "probe_evicted_during_run",
-                   "probe_update_during_inflight_load", "probe_unload_during_inflight"]
+                   "probe_update_during_inflight_load", "probe_unload_during_inflight", "probe_names_with_directory_part", "probe_df_unload"]
 WALL_CAP = {"quick": 300, "thorough": 3600}
 
 _fc = None
